@@ -288,7 +288,7 @@ PROPS = {
         "rules": [("PA", 1, None), ("DI", 0, None), ("DF", 1, has("CnfHasher", "label-tables")), ("EE", 3, None), ("IC", 5, has("repr::cnf::")), ("WP", 1, has("repr::cnf::")),
                   ("FS", 3, has("repr::cnf::", "assignment_weight")), ("CN", 2, None),
                   ("PR", 1, has("CnfHasher")), ("LT", 2, has("CnfHasher")),
-                  ("PM", 9, None), ("HS", 5, None), ("LC", 3, has("is_sat_partial", "Cnf::eval", "Cnf::condition")), ("LP", 6, None), ("WT", 1, has("from_litvec")), ("DP", 1, has("from_string:sign")), ("EM", 6, has("repr::cnf::"))],
+                  ("PM", 9, None), ("HS", 5, None), ("LC", 2, has("is_sat_partial", "Cnf::eval", "Cnf::condition")), ("LP", 6, None), ("WT", 1, has("from_litvec")), ("DP", 1, has("from_string:sign")), ("EM", 6, has("repr::cnf::"))],
         "explanation": "Brute-force counting leaves its enumeration loop only when the assignment iterator is exhausted (EE); "
                        "Cnf's variable count is max label + 1 (IC); the residual hasher's pos/neg tables are selected and "
                        "indexed by the same literal (WP); counting accumulators are seeded with zero/one (FS). Not decided: "
